@@ -194,7 +194,10 @@ def handle : List String → String
   | "range" :: w :: f :: d7 :: p7 :: rate :: rd :: d4 :: p4 :: _ =>
     match w.toNat?, f.toNat?, d7.toInt?, p7.toInt?, rate.toInt?, rd.toInt?, d4.toInt?, p4.toInt? with
     | some w, some f, some d7, some p7, some rate, some rd, some d4, some p4 =>
-      s!"r7={aggregateRange7 w f d7} p7={aggregatePhase7 w f p7} rate={aggregateRate7 rate rd} r4={aggregateRange4 w f d4} p4={aggregatePhase4 w f p4}"
+      let f64 (v : F64.Val) : String := let (neg, e, mant) := F64.ieee v; s!"{neg}/{e}/{mant}"
+      let metres (s : Nat) : F64.Val := F64.mul (F64.scale2 (F64.ofInt s) (-29)) F64.cLightMs
+      s!"r7={aggregateRange7 w f d7} p7={aggregatePhase7 w f p7} rate={aggregateRate7 rate rd} r4={aggregateRange4 w f d4} p4={aggregatePhase4 w f p4}" ++
+      s!" m7={f64 (metres (aggregateRange7 w f d7))} m4={f64 (metres (aggregateRange4 w f d4))} ms={f64 (F64.divConst (F64.ofInt (aggregateRate7 rate rd)) 10000)}"
     | _, _, _, _, _, _, _, _ => "bad-op"
   | "pipe" :: t :: h :: _ =>
     -- the pipeline delivers, to every consumer and under every schedule, the sequential segmentation
